@@ -139,8 +139,26 @@ def run_unit(unit, tmpl, seed=0, rlimit=None, needs_ast=False, threads=4, extra_
     res = {'unit': unit, 'template': tmpl, 'functions': {}, 'failures': [], 'undecided': [], 'canaries': {},
            'extracted': [], 'verus_cmd': '', 'wall_s': 0.0, 'verified': 0, 'errors': 0, 'smt_ms': 0,
            'clauses': 0}
-    out_rs = os.path.join(BUILD, 'units', unit + (f'_s{seed}' if seed else '') + '.rs')
+    # generated files of a scratch-source run (VERIF_REPO) live in their own directory, and every (directory, unit,
+    # seed) is generated + verified under an exclusive file lock: concurrent checks never see each other's files
+    udir = 'units'
+    if os.environ.get('VERIF_REPO'):
+        import hashlib
+        udir = 'units-' + hashlib.sha1(os.environ['VERIF_REPO'].encode()).hexdigest()[:8]
+    os.makedirs(os.path.join(BUILD, udir), exist_ok=True)
+    out_rs = os.path.join(BUILD, udir, unit + (f'_s{seed}' if seed else '') + '.rs')
     res['out_rs'] = out_rs
+    import fcntl
+    _lock = open(out_rs + '.lock', 'w')
+    fcntl.flock(_lock, fcntl.LOCK_EX)
+    try:
+        return _run_unit_locked(unit, tmpl, seed, rlimit, needs_ast, threads, extra_args, t0, res, out_rs, udir)
+    finally:
+        fcntl.flock(_lock, fcntl.LOCK_UN)
+        _lock.close()
+
+
+def _run_unit_locked(unit, tmpl, seed, rlimit, needs_ast, threads, extra_args, t0, res, out_rs, udir):
     try:
         report = extract.generate(os.path.join(VERIF, tmpl), out_rs)
     except extract.Unsupported as e:
@@ -162,7 +180,7 @@ def run_unit(unit, tmpl, seed=0, rlimit=None, needs_ast=False, threads=4, extra_
         cmd += a
     cmd += list(extra_args)
     res['verus_cmd'] = ' '.join(cmd)
-    p = subprocess.run(cmd, capture_output=True, text=True, cwd=os.path.join(BUILD, 'units'))
+    p = subprocess.run(cmd, capture_output=True, text=True, cwd=os.path.join(BUILD, udir))
     open(out_rs + '.stdout.json', 'w').write(p.stdout)
     open(out_rs + '.stderr.txt', 'w').write(p.stderr)
     items = fn_items(out_rs)
